@@ -99,8 +99,8 @@ AGG_IFS = ('SUMIFS', 'AVERAGEIFS', 'MAXIFS', 'MINIFS')
 ERRS = cr.ERROR_CODES
 
 # ------------------------------------------------------------------------------------------ pools
-NUMBERS = [0, 1, 2, 3, 3.0, 5, -1, 2.5, -0.5, 10, 100, 1000000]
-NUMTEXT = ['3', '2.5', '-1', '0', '1e2']
+NUMBERS = [0, 1, 2, 3, 3.0, 5, -1, 2.5, -0.5, 0.5, 10, 100, 1000000]
+NUMTEXT = ['3', '2.5', '-1', '0', '1e2', '.5']
 TEXTS = ['a', 'A', 'abc', 'ABC', 'Abd', 'b', 'ab', 'bcd', 'x y', 'Zoë', 'ZOË', 'a*', 'a?c', '*', '?',
          '~', 'a~b', 'a.c', '(b)', 'a+b', 'ab\ncd']
 PLAIN_TEXTS = ['a', 'A', 'abc', 'ABC', 'Abd', 'b', 'ab', 'bcd', 'x y', 'Zoë', 'ZOË']
@@ -115,6 +115,8 @@ def criteria_list():
     for op in OPS:
         for n in ('0', '1', '2.5', '3', '-1', '100'):
             out.append(op + n)
+    # spellings of numbers without a digit before / after the decimal point, with a sign, with an exponent
+    out += ['.5', '=.5', '<>.5', '>.5', '>=.5', '<-.25', '>-.75', '<+.75', '5.', '>2.', '<1E1', '>=5e-1']
     for t in ('a', 'ABC', 'abd', 'b', 'x y', 'zoë', 'a.c', '(B)', 'a+b', 'ab\ncd'):
         for op in ('', '=', '<>'):
             out.append(op + t)
